@@ -334,3 +334,101 @@ def _rename_uses(tree: ast.Module, g: str, cls: ast.ClassDef, b: str, foreign: b
             continue
         else:
             rewrite(st, cls.name)
+
+
+def flatten_new_bases(trees: Dict[str, ast.Module]) -> List[Tuple[str, str, str]]:
+    """A pinned class that now inherits some of its pinned methods from a *new* base class / mixin of the package has those methods
+    again: the definitions are copied into the class body (those it does not define itself); nothing else about the class changes."""
+    funcs, _consts, base_modules = _baseline()
+    pinned_classes = {".".join(q.split(".")[:2]) for q in funcs if len(q.split(".")) == 3}
+    classes: Dict[str, Tuple[str, ast.ClassDef]] = {}
+    for m, tree in trees.items():
+        for st in tree.body:
+            if isinstance(st, ast.ClassDef):
+                classes.setdefault(st.name, (m, st))
+    done: List[Tuple[str, str, str]] = []
+    for m in sorted(trees):
+        if m not in base_modules:
+            continue
+        for cls in [st for st in trees[m].body if isinstance(st, ast.ClassDef) and f"{m}.{st.name}" in pinned_classes]:
+            own = {x.name for x in cls.body if isinstance(x, ast.FunctionDef)}
+            for b in cls.bases:
+                bn = b.id if isinstance(b, ast.Name) else b.attr if isinstance(b, ast.Attribute) else None
+                if bn is None or bn not in classes:
+                    continue
+                bm, bdef = classes[bn]
+                if f"{bm}.{bn}" in pinned_classes or bdef is cls:
+                    continue
+                for x in bdef.body:
+                    if isinstance(x, ast.FunctionDef) and x.name not in own and f"{m}.{cls.name}.{x.name}" in funcs:
+                        cls.body.append(copy.deepcopy(x))
+                        own.add(x.name)
+                        done.append((f"{bm}.{bn}", x.name, f"{m}.{cls.name}"))
+            ast.fix_missing_locations(cls)
+    return done
+
+
+def restore_function_names(trees: Dict[str, ast.Module]) -> List[Tuple[str, str, str]]:
+    """A pinned function / method that is gone while its module / class has a *new* one with the pinned parameter list (and, when there
+    are several candidates, the pinned local names) was renamed: it gets its pinned name back, together with every reference in the
+    package (names, attributes, imports, `__all__` entries).  Nothing is renamed when the match is not unique."""
+    from .normalize import load_baseline_sigs
+    funcs, _consts, base_modules = _baseline()
+    sigs = load_baseline_sigs()
+    renames: Dict[str, str] = {}
+    done: List[Tuple[str, str, str]] = []
+
+    def local_names(fn) -> List[str]:
+        ps = {a.arg for a in fn.args.posonlyargs + fn.args.args + fn.args.kwonlyargs}
+        seen, out = set(ps), []
+        for x in sorted([x for x in ast.walk(fn) if isinstance(x, ast.Name) and isinstance(x.ctx, ast.Store)], key=lambda x: (x.lineno, x.col_offset)):
+            if x.id not in seen:
+                seen.add(x.id)
+                out.append(x.id)
+        return out
+    for m in sorted(trees):
+        if m not in base_modules:
+            continue
+        scopes: List[Tuple[str, List[ast.stmt]]] = [(m, trees[m].body)]
+        scopes += [(f"{m}.{st.name}", st.body) for st in trees[m].body if isinstance(st, ast.ClassDef)]
+        for prefix, body in scopes:
+            depth = len(prefix.split(".")) + 1
+            pinned_here = {q.split(".")[-1] for q in funcs if q.startswith(prefix + ".") and len(q.split(".")) == depth and "<locals>" not in q}
+            have = {x.name: x for x in body if isinstance(x, ast.FunctionDef)}
+            bound = set(have) | {t.id for x in body if isinstance(x, ast.Assign) for t in x.targets if isinstance(t, ast.Name)} \
+                | {(a.asname or a.name) for x in body if isinstance(x, ast.ImportFrom) for a in x.names}
+            missing = sorted(pinned_here - bound)
+            new = {n: f for n, f in have.items() if n not in pinned_here and not n.startswith("__")}
+            for f_old in missing:
+                want = sigs.get(f"{prefix}.{f_old}")
+                if want is None:
+                    continue
+                cands = [n for n, f in new.items() if [a.arg for a in f.args.posonlyargs + f.args.args + f.args.kwonlyargs] == want and n not in renames]
+                if len(cands) > 1:
+                    wl = sigs.get(f"locals:{prefix}.{f_old}", [])
+                    cands = [n for n in cands if local_names(new[n]) == wl]
+                if len(cands) == 1:
+                    renames[cands[0]] = f_old
+                    done.append((prefix, cands[0], f_old))
+    if not renames:
+        return done
+    # the new names must not mean anything else in the package
+    taken = {x.name for t in trees.values() for x in ast.walk(t) if isinstance(x, (ast.FunctionDef, ast.ClassDef))}
+    for g in list(renames):
+        if sum(1 for t in trees.values() for x in ast.walk(t) if isinstance(x, ast.FunctionDef) and x.name == g) != 1:
+            del renames[g]
+    for t in trees.values():
+        for x in ast.walk(t):
+            if isinstance(x, ast.FunctionDef) and x.name in renames:
+                x.name = renames[x.name]
+            elif isinstance(x, ast.Name) and x.id in renames:
+                x.id = renames[x.id]
+            elif isinstance(x, ast.Attribute) and x.attr in renames:
+                x.attr = renames[x.attr]
+            elif isinstance(x, ast.alias) and x.name in renames:
+                x.name = renames[x.name]
+            elif isinstance(x, ast.Constant) and isinstance(x.value, str) and x.value in renames:
+                x.value = renames[x.value]
+            elif isinstance(x, ast.keyword) and x.arg in renames:
+                pass
+    return [d for d in done if d[1] in renames]
